@@ -11,11 +11,13 @@ source on this run:
   preserves them.
 Explored on the real code (`rigid` stream): energy invariance, gradient covariance under rotation, zero net force AND
 torque, connectivity and force field rebuilt from moved coordinates — at offsets up to 1e4 Å.
-Not proved (stated, explored only): zero net torque and gradient covariance as theorems (they follow from rotation
-invariance by differentiating along rotations; the derivation is not formalised here), and float-level invariance.
+* zero net torque of every term's translated gradient about each coordinate axis through the origin (by differentiating
+  the invariance along the one-parameter rotation groups) — together with zero net force this is zero torque about any point.
+Not proved (explored only): the rotation covariance of the gradient as a theorem, and float-level invariance.
 -/
 import OptRs.Lemmas.Translate
 import OptRs.Lemmas.Rotate
+import OptRs.Lemmas.Torque
 import OptRs.Model.Perceive
 namespace OptRs.Props.C03
 open OptRs OptRs.Lemmas OptRs.Model.Energy OptRs.Gen
@@ -72,6 +74,23 @@ theorem term_net_force_zero (ρ : Nat → ℝ) (c : Fin 3) (n : Nat) :
 theorem net_force_zero_of_invariance (k : KindSpec)
     (hinv : ∀ τ ρ, k.E.evalR (shiftEnv k.na τ ρ) = k.E.evalR ρ) (ρ : Nat → ℝ) (hρ : k.Regular ρ) (c : Fin 3) :
     ∑ a ∈ Finset.range k.na, k.G.gradR ρ (3 * a + c) = 0 := net_force_zero k hinv ρ hρ c
+
+/-! ### Zero net torque -/
+
+/-- **Per term**: the translated gradient exerts no net torque — Σ_a r_a × g_a = 0, component by component. -/
+theorem term_net_torque_zero (ρ : Nat → ℝ) (n : Nat) :
+    (PairRegular ρ → TorqueFree 2 ρ (bondGrad.gradR ρ)) ∧ (PairRegular ρ → TorqueFree 2 ρ (ljGrad.gradR ρ)) ∧
+    (PairRegular ρ → TorqueFree 2 ρ ((repulsionGrad n).gradR ρ)) ∧
+    (BendRegular ρ → ρ 21 ≠ 0 → TorqueFree 3 ρ (angleAGrad.gradR ρ)) ∧ (BendRegular ρ → TorqueFree 3 ρ (angleBGrad.gradR ρ)) ∧
+    (TorsionRegular ρ → TorqueFree 4 ρ (torsionGrad.gradR ρ)) ∧ (InversionRegular ρ → TorqueFree 4 ρ (inversionGrad.gradR ρ)) :=
+  ⟨bond_net_torque ρ, lj_net_torque ρ, repulsion_net_torque n ρ, angleA_net_torque ρ, angleB_net_torque ρ,
+    torsion_net_torque ρ, inversion_net_torque ρ⟩
+
+/-- Generic form: any kind whose energy is invariant along the three one-parameter rotation groups is torque free at
+every regular point. -/
+theorem net_torque_zero_of_invariance (k : KindSpec) (ρ : Nat → ℝ) (hρ : k.Regular ρ)
+    (hinv : ∀ (c : Fin 3) (t : ℝ), k.E.evalR (rotEnv k.na (rotAxis c t) ρ) = k.E.evalR ρ) :
+    TorqueFree k.na ρ (k.G.gradR ρ) := net_torque_zero k ρ hρ hinv
 
 /-! ### Perception -/
 
